@@ -2,7 +2,7 @@
 import re
 from . import register
 from .c20 import follow_to_params
-from ..analysis import (backslice, aggregates, agg_field, switch_targets_bool, count_nots, closure_creation, forward_locals,
+from ..analysis import (return_variants_from, backslice, aggregates, agg_field, switch_targets_bool, count_nots, closure_creation, forward_locals,
                         direct_field, direct_def, comparisons, branch_of, dominated_region, FLIP, NEG, upvar_operand,
                         switch_on_result_of, field_writes)
 from ..facts import const_bool, const_int, op_local, op_place, op_const, const_val, rvalue_operands, rvalue_places, place_fields
@@ -21,6 +21,7 @@ DOC = {
         'C01.R4': 'hashing task: inode groups keyed by file_info.id; FileId equality is the derived one over exactly {device, inode}',
         'C01.R5': 'hash_transformed: the length bound handed to stream_hash has no data dependence on chunk.len (the raw file length)',
         'C01.R6': 'fields of FileInfo written through the &mut handed to hash_fn and read by the group key are assigned on every HashedFileInfo the task sends',
+        'C01.R10': 'the chunks are cut from the length recorded by the scan, so the data are only those of the reported file if the length still holds: the three raw hashing stages hand the scanned length to the hasher with the chunk, and file_hash compares it with the length of the file it has open (fstat) and fails on a mismatch - a file that grew or shrank after the scan leaves the stage with a warning instead of being reported under its old length',
         'C01.R9': 'the report file (-o FILE) is created, empty, before the scan starts (main.rs: check_can_create_output_file), so the scan must not take it for one of the input files: scan_files filters out the path that equals config.output',
         'C01.R8': 'the suffix stage, which combines hashes with XOR, never hashes the chunk the prefix stage already hashed: its pre-filter excludes files not longer than the prefix length (a comparison of file_len with a value that group_files derives from the same prefix_len it hands to the prefix and contents stages); otherwise whole-file ^ whole-file = 0 merges all files of one length',
         'C01.R7': 'file_hash opens at chunk.pos and bounds by chunk.len; stream_hash feeds every buffer to the hasher; the read loop exits only at the bound, on read()==0, or with Err',
@@ -41,6 +42,7 @@ def run(ctx):
     r7(ctx)
     r8(ctx)
     r9(ctx)
+    r10(ctx)
     from .common import run_mandatory
     run_mandatory(ctx, 'C01')
 
@@ -593,3 +595,55 @@ def r9(ctx, rule='C01.R9'):
     ctx.check(ok, rule, 'group::scan_files|output-not-scanned', sc.where(), 'scan_files drops the path equal to config.output',
               'run_group creates (truncates) the report file before group_files scans the tree, and nothing keeps the scan from picking it up: with `cd d; fclones group . --min 0 -o report.txt` the '
               'report lists report.txt itself as a 0-byte duplicate of the empty files, while it is hundreds of bytes long')
+
+
+def r10(ctx, rule='C01.R10'):
+    lib = ctx.lib
+    fh = [b for p_, b in lib.bodies.items() if re.match(r'^hasher::file_hash$', p_)]
+    if not fh:
+        ctx.missing(rule, 'fn hasher::file_hash')
+        return
+    b = fh[0]
+    md = b.calls(r'File::metadata$')
+    ok = False
+    for cmp in comparisons(b):
+        sa, sb_ = backslice(b, [cmp.a]), backslice(b, [cmp.b])
+        exp = 'file_len' in sa.field_names() or 'file_len' in sb_.field_names()
+        act = sa.has_call(r'Metadata::len$') or sb_.has_call(r'Metadata::len$')
+        if exp and act and cmp.op in ('==', '!='):
+            br = branch_of(b, cmp)
+            if br:
+                ne_side = br[1] if cmp.op == '!=' else br[2]
+                rv = return_variants_from(b, ne_side)
+                ok = 'Err' in rv and not (b.dominates(ne_side, b.return_blocks()[0]) and 'Ok' in rv and 'Err' not in rv)
+    # PartialEq::ne on FileLen is a call, not a primitive comparison
+    for c in b.calls(r'PartialEq.*>::(ne|eq)$|PartialEq::(ne|eq)$'):
+        names = set()
+        calls = []
+        for a in c.args:
+            sl = backslice(b, [a])
+            names |= set(sl.field_names())
+            calls += sl.calls
+        if 'file_len' in names and any(k.matches(r'Metadata::len$') for k in calls):
+            for (bbx, idx, what) in b.operand_uses(c.dest[0]):
+                if what[0] == 'switch':
+                    tt, ft = switch_targets_bool(what[1])
+                    side = tt if c.path.endswith('ne') else ft
+                    if side is not None and 'Err' in return_variants_from(b, side):
+                        ok = True
+    ctx.check(bool(md) and ok, rule, b.path + '|length-still-holds', (md[0].where() if md else b.where()), 'file_hash fails when the length of the open file differs from the scanned length carried by the chunk',
+              'file_hash reads `chunk.len` bytes at `chunk.pos`, both cut from the length recorded by the scan, and never looks at the current length of the file (it even discards the number of bytes read): '
+              'a file that was appended to after the scan is hashed over its old length and reported as a duplicate with that length, a file that was truncated is hashed over fewer bytes than reported - '
+              'both silently')
+    n = 0
+    for st in ('group_by_prefix', 'group_by_suffix', 'group_by_contents'):
+        pb, rh, hc = hash_closure_of(lib, st)
+        if hc is None:
+            ctx.missing(rule, 'hash closure of ' + st)
+            continue
+        fc = hc.calls(r'FileChunk.*::new$')
+        ex = hc.calls(r'FileChunk.*::of_file_len$')
+        good = bool(fc) and bool(ex) and 'len' in backslice(hc, [ex[0].args[1]]).field_names() and fc[0] in backslice(hc, [ex[0].args[0]]).calls
+        n += 1
+        ctx.check(good, rule, 'group::%s|chunk-carries-scanned-length' % st, (fc[0].where() if fc else hc.where()), '%s: the chunk carries fi.len' % st,
+                  '%s hands the chunk to the hasher without the scanned file length, so a changed length cannot be noticed' % st)
